@@ -327,13 +327,42 @@ package raft
 //@ pure PubInv(d string) bool = forall(i, fs[mfile(d, i)] ==> DataOK(d, i))
 //@ pure AllBelow(s *snapshots) bool = forall(i, fs[mfile(s.dir, i)] ==> i <= s.index)
 
-//@ func findSnapshots
+// discovery of the published snapshots: the names in the directory, newest first (C09, C10, C19).
+// T-std (trusted): Glob returns exactly the existing paths that match, each once; a snapshot label
+// file name <i>.meta parses back to i.
+//@ ghost func gmatch(string, string) bool
+//@ ghost func gpos(uint64, string) int
+//@ ghost func gbase(string) uint64
+//@ ghost func gtrim(string, string) uint64
+//@ ghost func gparse(string) uint64
+//@ axiom [T-std.glob-meta] forall(d, p, gmatch(pjoin(d, "*.meta"), p) == (p == mfile(d, pidx(p)) && pkind(p) == 1))
+//@ axiom [T-std.meta-name-parses] forall(d, i, gparse(gtrim(gbase(mfile(d, i)), ".meta")) == i)
+//@ func path/filepath.Glob
 //@   trusted
-//@   ensures result1 == nil ==> forall(k, 0 <= k && k < len(result0) ==> fs[mfile(dir, result0[k])])
-//@   ensures result1 == nil ==> forall(j, k, 0 <= j && j < k && k < len(result0) ==> result0[j] > result0[k])
+//@   ensures result1 == nil ==> forall(k, 0 <= k && k < len(result0) ==> fs[result0[k]] && gmatch(pattern, result0[k]))
+//@   ensures result1 == nil ==> forall(j, k, 0 <= j && j < k && k < len(result0) ==> result0[j] != result0[k])
+//@   ensures result1 == nil ==> forall(p, fs[p] && gmatch(pattern, p) ==> 0 <= gpos(arrof(result0), p) && gpos(arrof(result0), p) < len(result0) && result0[gpos(arrof(result0), p)] == p)
+//@   ensures len(result0) < 4611686018427387904 && base(result0) == 0 && (len(result0) > 0 ==> isfresh(arrof(result0)))
+//@ func path/filepath.Base
+//@   trusted
+//@   ensures result0 == gbase(path)
+//@ func strings.TrimSuffix
+//@   trusted
+//@   ensures result0 == gtrim(s, suffix)
+//@ func strconv.ParseUint
+//@   trusted
+//@   ensures result1 == nil ==> result0 == gparse(s)
+
+//@ func findSnapshots
+//@   props C09 C10 C19
+//@   modifies sortgen
+//@   ensures [C09.snapshots-exist] result1 == nil ==> forall(k, 0 <= k && k < len(result0) ==> fs[mfile(dir, result0[k])])
+//@   ensures [C09+C19.newest-first] result1 == nil ==> forall(j, k, 0 <= j && j < k && k < len(result0) ==> result0[j] > result0[k])
 //@   ensures result1 == nil ==> forall(k, 0 < k && k < len(result0) ==> result0[k] < result0[0]) && (len(result0) > 0 ==> fs[mfile(dir, result0[0])])
 //@   ensures len(result0) >= 0 && len(result0) < 9223372036854775807
-//@   ensures result1 == nil ==> forall(i, fs[mfile(dir, i)] ==> len(result0) > 0 && i <= result0[0])
+//@   ensures [C09+C19.newest-is-latest] result1 == nil ==> forall(i, fs[mfile(dir, i)] ==> len(result0) > 0 && i <= result0[0])
+//@   loop 1 invariant -1 <= rangeindex && rangeindex < len(matches) && len(snaps) == rangeindex + 1 && base(snaps) == 0 && base(matches) == 0 && (len(snaps) > 0 ==> isfresh(arrof(snaps))) && (len(snaps) == 0 ==> arrof(snaps) == 0)
+//@   loop 1 invariant forall(k, 0 <= k && k < len(snaps) ==> raw(matches, k) == mfile(dir, raw(snaps, k)))
 
 //@ pure RemovedOK(s *snapshots, p uint64, top uint64) bool = fs[p] != old(fs[p]) ==> !fs[p] && (p == mfile(s.dir, pidx(p)) || p == sfile(s.dir, pidx(p))) && s.used[pidx(p)] == 0 && (s.retain >= 1 ==> pidx(p) < top)
 //@ func (*snapshots).applyRetain
